@@ -296,6 +296,12 @@ def parse_response(raw: bytes) -> Resp:
                     for k, v in zip(r.data[0::2], r.data[1::2]):
                         if isinstance(k, Atom) and str(k).upper() == "UID" and not str(v).isdigit():
                             raise SyntaxErr("FETCH UID is not a number")  # RFC 3501: "UID" SP uniqueid
+                        if isinstance(k, Atom) and str(k).upper() == "BODYSTRUCTURE":
+                            validate_body(v, "BODYSTRUCTURE", True)
+                        if isinstance(k, Atom) and str(k).upper() == "BODY":
+                            validate_body(v, "BODY", False)
+                        if isinstance(k, Atom) and str(k).upper() == "ENVELOPE":
+                            validate_envelope(v)
                 else:
                     raise SyntaxErr(f"unknown numeric response {r.typ}")
                 return r
@@ -352,6 +358,116 @@ def parse_stream(data: bytes):
 
 # --------------------------------------------------------------------------------------
 # helpers over parsed responses
+# --------------------------------------------------------------------------------------
+# RFC 3501 section 9: the shapes of `body` (BODY / BODYSTRUCTURE) and `envelope`
+def _is_str(x) -> bool:
+    return isinstance(x, (bytes, bytearray))  # quoted string or literal (an atom or NIL is not a `string`)
+
+
+def _nstring(x) -> bool:
+    return x is None or _is_str(x)
+
+
+def _fld_param(x, where):
+    # body-fld-param = "(" string SP string *(SP string SP string) ")" / nil
+    if x is None:
+        return
+    if not isinstance(x, list) or not x or len(x) % 2 or not all(_is_str(v) for v in x):
+        raise SyntaxErr(f"{where}: body-fld-param must be NIL or a non-empty list of string pairs")
+
+
+def _fld_dsp(x, where):
+    # body-fld-dsp = "(" string SP body-fld-param ")" / nil
+    if x is None:
+        return
+    if not isinstance(x, list) or len(x) != 2 or not _is_str(x[0]):
+        raise SyntaxErr(f"{where}: body-fld-dsp must be NIL or (string body-fld-param)")
+    _fld_param(x[1], where + " disposition")
+
+
+def _fld_lang(x, where):
+    # body-fld-lang = nstring / "(" string *(SP string) ")"
+    if _nstring(x):
+        return
+    if not isinstance(x, list) or not x or not all(_is_str(v) for v in x):
+        raise SyntaxErr(f"{where}: body-fld-lang must be an nstring or a non-empty list of strings")
+
+
+def _number(x) -> bool:
+    return isinstance(x, (str, int)) and str(x).isdigit()
+
+
+def validate_envelope(e, where="ENVELOPE"):
+    if not isinstance(e, list) or len(e) != 10:
+        raise SyntaxErr(f"{where}: an envelope has 10 fields")
+    for i in (0, 1, 8, 9):
+        if not _nstring(e[i]):
+            raise SyntaxErr(f"{where}: field {i} must be an nstring")
+    for i in range(2, 8):
+        a = e[i]
+        if a is None:
+            continue
+        if not isinstance(a, list) or not a:
+            raise SyntaxErr(f"{where}: address field {i} must be NIL or a non-empty list of addresses")
+        for ad in a:
+            if not isinstance(ad, list) or len(ad) != 4 or not all(_nstring(v) for v in ad):
+                raise SyntaxErr(f"{where}: an address is (nstring nstring nstring nstring)")
+
+
+def validate_body(b, where="BODY", ext_ok=True):
+    if not isinstance(b, list) or not b:
+        raise SyntaxErr(f"{where}: a body is a non-empty parenthesised list")
+    if isinstance(b[0], list):  # body-type-mpart = 1*body SP media-subtype [SP body-ext-mpart]
+        i = 0
+        while i < len(b) and isinstance(b[i], list):
+            validate_body(b[i], f"{where}.{i + 1}", ext_ok)
+            i += 1
+        if i >= len(b) or not _is_str(b[i]):
+            raise SyntaxErr(f"{where}: multipart needs a media-subtype string after its parts")
+        ext = b[i + 1:]
+        if ext and not ext_ok:
+            raise SyntaxErr(f"{where}: BODY (non-extensible form) must not carry extension data")
+        if len(ext) >= 1:
+            _fld_param(ext[0], where)
+        if len(ext) >= 2:
+            _fld_dsp(ext[1], where)
+        if len(ext) >= 3:
+            _fld_lang(ext[2], where)
+        if len(ext) >= 4 and not _nstring(ext[3]):
+            raise SyntaxErr(f"{where}: body-fld-loc must be an nstring")
+        return
+    if len(b) < 7 or not _is_str(b[0]) or not _is_str(b[1]):
+        raise SyntaxErr(f"{where}: a single part starts with media type and subtype strings followed by body-fields")
+    _fld_param(b[2], where)
+    if not _nstring(b[3]) or not _nstring(b[4]) or not _is_str(b[5]) or not _number(b[6]):
+        raise SyntaxErr(f"{where}: body-fields = param id desc enc octets")
+    typ, sub = bytes(b[0]).upper(), bytes(b[1]).upper()
+    i = 7
+    if typ == b"MESSAGE" and sub == b"RFC822":
+        if len(b) < 10:
+            raise SyntaxErr(f"{where}: message/rfc822 needs envelope, body and line count")
+        validate_envelope(b[7], where + " envelope")
+        validate_body(b[8], where + ".1", ext_ok)
+        if not _number(b[9]):
+            raise SyntaxErr(f"{where}: line count must be a number")
+        i = 10
+    elif typ == b"TEXT":
+        if len(b) < 8 or not _number(b[7]):
+            raise SyntaxErr(f"{where}: text part needs a line count")
+        i = 8
+    ext = b[i:]
+    if ext and not ext_ok:
+        raise SyntaxErr(f"{where}: BODY (non-extensible form) must not carry extension data")
+    if len(ext) >= 1 and not _nstring(ext[0]):
+        raise SyntaxErr(f"{where}: body-fld-md5 must be an nstring")
+    if len(ext) >= 2:
+        _fld_dsp(ext[1], where)
+    if len(ext) >= 3:
+        _fld_lang(ext[2], where)
+    if len(ext) >= 4 and not _nstring(ext[3]):
+        raise SyntaxErr(f"{where}: body-fld-loc must be an nstring")
+
+
 def fetch_items(r: Resp) -> dict:
     """FETCH msg-att list -> dict with upper-cased item names."""
     d = {}
